@@ -22,6 +22,40 @@ def gen_registry():
     V.log("  " + p.stdout.strip())
 
 
+def gen_compare(wd):
+    """C13, last clause: build the generator from /repo, run it on every package that carries a go:generate line for it,
+    and compare its output with the checked-in zz_generated.go (rows judged by RegTrace!I_C13gen)."""
+    gen = os.path.join(wd, "gondn_tlv_gen")
+    p = subprocess.run(["go", "build", "-o", gen, "./std/cmd/gondn_tlv_gen"], cwd=V.REPO, env=V.GOENV, stdout=subprocess.PIPE, stderr=subprocess.STDOUT, text=True)
+    if p.returncode != 0:
+        raise V.Machinery("cannot build the TLV generator:\n" + p.stdout[-2000:])
+    rows = []
+    for root, dirs, files in os.walk(V.REPO):
+        dirs[:] = [d for d in dirs if not d.startswith(".")]
+        for fn in files:
+            if not fn.endswith(".go") or fn == "zz_generated.go":
+                continue
+            try:
+                txt = open(os.path.join(root, fn), errors="replace").read()
+            except OSError:
+                continue
+            if "//go:generate gondn_tlv_gen" not in txt:
+                continue
+            out = os.path.join(wd, "zz_regen.go")
+            if os.path.exists(out):
+                os.remove(out)
+            q = subprocess.run([gen, "-input", root, "-output", out], env=V.GOENV, stdout=subprocess.PIPE, stderr=subprocess.STDOUT, text=True)
+            new = open(out, "rb").read() if os.path.exists(out) else b""
+            old_path = os.path.join(root, "zz_generated.go")
+            old = open(old_path, "rb").read() if os.path.exists(old_path) else b""
+            first = next((i for i, (a, b) in enumerate(zip(new.splitlines(), old.splitlines())) if a != b), -1)
+            rows.append({"ev": "gen", "pkg": os.path.relpath(root, V.REPO), "equal": new == old and len(new) > 0, "generated": len(new), "checkedin": len(old),
+                         "firstDiffLine": first + 1, "rc": q.returncode})
+    if not rows:
+        raise V.Machinery("no package with a go:generate line for the TLV generator was found")
+    return rows
+
+
 def match_c13(pid, v):
     last = v["segment"][-1]
     for f in V.open_findings(pid):
@@ -32,7 +66,7 @@ def match_c13(pid, v):
     return None
 
 
-def sweep(pid, tier, spec_dir, mc_runs, binary, wd, drivers, module, head, rule_text, assumptions, match=None, short=None):
+def sweep(pid, tier, spec_dir, mc_runs, binary, wd, drivers, module, head, rule_text, assumptions, match=None, short=None, extra_rows=None):
     """pipeline for traces of independent experiments (one TLC pass, every violating row reported)"""
     import time, threading, shutil
     t0 = time.time()
@@ -57,6 +91,13 @@ def sweep(pid, tier, spec_dir, mc_runs, binary, wd, drivers, module, head, rule_
         events += n
         nontriv += sum(1 for r in rows if r.get("ev") not in ("Reset",))
         samples += rows[1:4]
+        for (idx, rules) in viols:
+            allv.append((rows[idx], rules, rows[max(0, idx - 2): idx + 1]))
+    for (label, rows) in (extra_rows or []):
+        n, viols = V.validate_collect(wd, rows, module, head, label=label)
+        events += n
+        nontriv += len(rows)
+        samples += rows[:2]
         for (idx, rules) in viols:
             allv.append((rows[idx], rules, rows[max(0, idx - 2): idx + 1]))
     bg.join()
@@ -236,10 +277,11 @@ def run(pid, tier, replay=None):
             "a type-directed reflection builder makes nil/empty/boundary/large variants of every field kind (nested structs, sequences, maps); each value is encoded, "
             "walked with an independent TLV reader, decoded contiguous and segmented and compared semantically; then an unrecognised element of each class "
             "(<=31, odd, even) is inserted at every top-level position with ignoreCritical on/off and the outcome compared with ParseLoop!Expected; "
-            "every experiment is non-trivial (distinct model x variant x position x class)",
+            "every experiment is non-trivial (distinct model x variant x position x class); finally the generator is built from /repo and run on every package "
+            "with a go:generate line for it, its output compared byte for byte with the checked-in zz_generated.go (I_C13gen)",
             ["TLC, JVM, Go runtime trusted", "private packet models (Interest/Data/LpPacket) are exercised through ReadPacket in C03/C04, not here",
-             "'the checked-in generated code is exactly what the generator produces' is a file comparison with no state or oracle a TLA+ model adds: not decided by this family (DESIGN 4 C13)"],
-            match=match_c13)
+             "the generator-output clause is a byte comparison (rows judged by I_C13gen); that the generator's *templates* implement the parse loop of ParseLoop.tla is what the experiments establish"],
+            match=match_c13, extra_rows=[("gen", gen_compare(wd))])
     if pid in ("C03", "C12"):
         wd = V.workdir(pid)
         V.copy_spec("tlv", wd)
